@@ -2,6 +2,8 @@
    for the correspondence check.  Only ExtrOcamlBasic is used: bool, option, unit, list, prod,
    sumbool, sumor map to their OCaml counterparts; nat, positive, N, Z stay Coq inductive types. *)
 Require Import Coq.ZArith.ZArith.
+Require Import Trzsz.Model.Base64.
+Require Import Trzsz.Model.Wire.
 Require Import Trzsz.Model.Escape.
 Require Extraction.
 Require Import ExtrOcamlBasic.
@@ -23,6 +25,26 @@ Extraction "model.ml"
   N.sub
   N.div
   N.modulo
+  Base64.b64_encode
+  Base64.b64_decode
+  Base64.b64_writer
+  Base64.is_b64_byte
+  Wire.wire_letter
+  Wire.wire_dec
+  Wire.wire_undec
+  Wire.wire_line
+  Wire.wire_int_line
+  Wire.wire_pause_line
+  Wire.wire_ack_line
+  Wire.wire_frames
+  Wire.wire_data_frame
+  Wire.wire_resplit
+  Wire.wire_render_piece
+  Wire.wire_recv
+  Wire.wire_v1_chunk
+  Wire.wire_v1_recv
+  Wire.wire_encode_bytes
+  Wire.wire_decode_string
   Escape.escape
   Escape.unescape_data
   Escape.er_run
